@@ -223,8 +223,133 @@ pub fn corpus(tier: Tier) -> Arc<Vec<TDoc>> {
     Arc::new(out)
 }
 
+/// JSON text of `v` in which every string (keys and values) is spelled with \\uXXXX escapes only
+fn escaped_text(v: &RVal, out: &mut String) {
+    fn esc(s: &str, out: &mut String) {
+        out.push('"');
+        for u in s.encode_utf16() {
+            out.push_str(&format!("\\u{:04x}", u));
+        }
+        out.push('"');
+    }
+    match v {
+        RVal::Str(s) => esc(s, out),
+        RVal::Arr(a) => {
+            out.push('[');
+            for (i, x) in a.iter().enumerate() {
+                if i > 0 {
+                    out.push_str(", ");
+                }
+                escaped_text(x, out);
+            }
+            out.push(']');
+        }
+        RVal::Obj(o) => {
+            out.push('{');
+            for (i, (k, x)) in o.iter().enumerate() {
+                if i > 0 {
+                    out.push_str(", ");
+                }
+                esc(k, out);
+                out.push_str(": ");
+                escaped_text(x, out);
+            }
+            out.push('}');
+        }
+        x => out.push_str(&refmodel::text::print(x)),
+    }
+}
+
+/// boundary-argument observations for larger documents
+fn observe_lite(v: &RVal, d: &[u8]) -> Vec<(String, String)> {
+    let mut o: Vec<(String, String)> = vec![];
+    let n = ops::array_length(v).unwrap_or(0);
+    o.push(("array_length".into(), format!("{:?}", jsonb::array_length(d))));
+    o.push(("type_of".into(), format!("{:?}", jsonb::type_of(d).ok())));
+    for i in [0, n / 2, n.saturating_sub(1), n] {
+        o.push((format!("get_by_index({})", i), ob(jsonb::get_by_index(d, i))));
+    }
+    let keys = crate::checks::scale::keys_of(v);
+    for k in &keys {
+        for ic in [false, true] {
+            o.push((format!("get_by_name({:?},{})", k, ic), ob(jsonb::get_by_name(d, k, ic))));
+        }
+        let kp = [jsonb::keypath::KeyPath::Name(std::borrow::Cow::Owned(k.clone()))];
+        o.push((format!("get_by_keypath({:?})", k), ob(jsonb::get_by_keypath(d, kp.iter()))));
+        let ks = [k.as_bytes()];
+        o.push((format!("exists_keys({:?})", k), format!("{:?}", (jsonb::exists_all_keys(d, ks.iter().copied()), jsonb::exists_any_keys(d, ks.iter().copied())))));
+        for ps in [format!("$.{}", k), format!("$[\"{}\"]", k), format!("$.{} > 3", k), format!("$.*?(exists($.{}))", k)] {
+            if let Ok(jp) = jsonb::jsonpath::parse_json_path(ps.as_bytes()) {
+                o.push((format!("path_exists({})", ps), format!("{:?}", jsonb::path_exists(d, jp.clone()).ok())));
+                o.push((format!("path_match({})", ps), format!("{:?}", jsonb::path_match(d, jp.clone()).ok())));
+                let (mut b, mut off) = (vec![], vec![]);
+                let r = jsonb::get_by_path(d, jp, &mut b, &mut off);
+                o.push((format!("get_by_path({})", ps), format!("{} {:?}", rb(r, b), off)));
+            }
+        }
+        let mut b = vec![];
+        let r = jsonb::delete_by_name(d, k, &mut b);
+        o.push((format!("delete_by_name({:?})", k), rb(r, b)));
+    }
+    for ps in ["$[*]", "$.*", "$[last]", "$[0 to 2]"] {
+        let jp = jsonb::jsonpath::parse_json_path(ps.as_bytes()).unwrap();
+        o.push((format!("path_exists({})", ps), format!("{:?}", jsonb::path_exists(d, jp.clone()).ok())));
+        let (mut b, mut off) = (vec![], vec![]);
+        let r = jsonb::get_by_path(d, jp, &mut b, &mut off);
+        o.push((format!("get_by_path({})", ps), format!("{} {:?}", rb(r, b), off)));
+    }
+    o.push(("object_keys".into(), ob(jsonb::object_keys(d))));
+    o.push(("to_string".into(), text_obs(jsonb::to_string(d))));
+    let mut k = vec![];
+    jsonb::convert_to_comparable(d, &mut k);
+    o.push(("convert_to_comparable".into(), hex(&k)));
+    let mut b = vec![];
+    let r = jsonb::strip_nulls(d, &mut b);
+    o.push(("strip_nulls".into(), rb(r, b)));
+    o
+}
+
 pub fn spaces(tier: Tier) -> Vec<Space<'static>> {
     let mut sp: Vec<Space> = vec![];
+    // larger documents (texts of 1 KiB and more), plain and fully \\u-escaped spelling
+    {
+        let sizes: Vec<usize> = if tier.thorough() { (0..=400).collect() } else { (0..=130).collect() };
+        let ns = sizes.len() as u64;
+        sp.push(Space::new("size sweep: N-member documents as plain and as fully escaped text vs JSONB", ns * 3, move |i, acc| {
+            let n = sizes[(i / 3) as usize];
+            let v = match i % 3 {
+                0 => crate::checks::scale::sized(1, n),
+                1 => RVal::Obj((0..n).map(|k| (format!("clé{}", k), if k % 4 == 0 { RVal::Null } else { RVal::Str(format!("v{}é", k)) })).collect()),
+                _ => crate::checks::scale::sized(2, n),
+            };
+            let bytes = enc(&v);
+            let plain = refmodel::text::print(&v);
+            let mut escd = String::new();
+            escaped_text(&v, &mut escd);
+            let bin = match guard(|| observe_lite(&v, &bytes)) {
+                Ok(x) => x,
+                Err(p) => {
+                    acc.vio(&format!("binary-form:{}", panic_class(&p)), || json!({"N": n}));
+                    return;
+                }
+            };
+            for (form, t) in [("plain-text", &plain), ("escaped-text", &escd)] {
+                acc.nontrivial += 1;
+                match guard(|| observe_lite(&v, t.as_bytes())) {
+                    Err(p) => acc.vio(&format!("{}:{}", form, panic_class(&p)), || json!({"N": n})),
+                    Ok(r) => {
+                        for ((l, o1), (_, o2)) in bin.iter().zip(r.iter()) {
+                            acc.eval();
+                            if o1 != o2 {
+                                let f = l.split('(').next().unwrap_or("?");
+                                acc.vio(&format!("text!=binary:{}:{}", f, form), || json!({"N": n, "text_len": t.len(), "call": l, "binary": o1.chars().take(200).collect::<String>(), "text": o2.chars().take(200).collect::<String>()}));
+                            }
+                        }
+                    }
+                }
+            }
+        }));
+    }
     let c = corpus(tier);
     let c1 = c.clone();
     sp.push(Space::new("single-document-functions", c.len() as u64, move |i, acc| {
